@@ -590,7 +590,7 @@ def entries(env: str) -> list:
 
 # entry ids are static strings: listing them must not require importing jumanji in the parent
 QUICK = {
-    "Game2048": ["b3", "b4"], "GraphColoring": ["n6p8", "n20p8", "n40p3", "n130p1"], "Minesweeper": ["r3c5m3", "default", "r2c2m1", "r12c12m20"],
+    "Game2048": ["b3", "b4"], "GraphColoring": ["n6p8", "n20p8", "n40p3", "n130p1"], "Minesweeper": ["r3c5m3", "default", "r2c2m1", "r12c12m20", "r4c4m15"],
     "RubiksCube": ["n2s1t3", "n3s7t7"], "SlidingTilePuzzle": ["g3m50t7d", "g2m1t3s", "g12m300t60d"],
     "Sudoku": ["veryeasy", "dummy", "veryeasy_u8"], "BinPack": ["r10e20s2", "r5e10s1o6", "r10e30o8huge"], "FlatPack": ["r2c3b", "r3c2c"],
     "JobShop": ["j3m2o3d2", "j5m4o4d4", "j40m4o3d4", "j130m3o2d3"], "Knapsack": ["n10s", "n50d", "q8d", "n130d"], "Tetris": ["r6c5t400", "r10c10t400"],
@@ -626,6 +626,11 @@ def make_env(env: str, entry: str, **overrides):
 
 def meta(env: str, entry: str) -> dict:
     return dict(menus()[env][entry][1])
+
+
+def _scatter(r: int) -> int:
+    """Deterministic multiplicative scatter of a drawn integer (Knuth), non-negative."""
+    return ((int(r) * 2654435761) & 0xFFFFFFFF) >> 5
 
 
 def make_key(words):
@@ -702,15 +707,18 @@ class Bundle:
             idx = np.flatnonzero(mask.reshape(-1))
             if idx.size == 0:
                 return None
-            flat = int(idx[r % idx.size])
+            # Hypothesis favours small integers, above all in short campaigns: r is scattered multiplicatively so
+            # that small r do not all select the first few legal actions (0 -> first and -1 -> last are kept)
+            flat = int(idx[(r if r in (0, -1) else _scatter(r)) % idx.size])
             if self.layout == "flat":
                 return np.asarray(flat, self.act_dtype)
             return np.asarray(np.unravel_index(flat, mask.shape), self.act_dtype)
         # agents
         out = np.zeros(mask.shape[0], np.int64)
+        rs = r if r in (0, -1) else _scatter(r)
         for a in range(mask.shape[0]):
             idx = np.flatnonzero(mask[a])
-            out[a] = idx[(r // (3 ** a) + a * (r % 7)) % idx.size] if idx.size else 0
+            out[a] = idx[(rs // (3 ** a) + a * (rs % 7)) % idx.size] if idx.size else 0
         return out.astype(self.act_dtype)
 
     def crowd_action(self, mask, r: int):
